@@ -370,6 +370,8 @@ func (e *Engine) execStmt(st *State, s ast.Stmt) []*State {
 		return e.execRange(st, s)
 	case *ast.SwitchStmt:
 		return e.execSwitch(st, s)
+	case *ast.TypeSwitchStmt:
+		return e.execTypeSwitch(st, s)
 	case *ast.SelectStmt:
 		return e.execSelect(st, s)
 	case *ast.ReturnStmt:
@@ -868,6 +870,114 @@ func (e *Engine) execRange(st *State, s *ast.RangeStmt) []*State {
 			return sts
 		}
 		out = append(out, e.loopIter(x.st, s, s.Body, nil, nil, setup, step, "range", xv)...)
+	}
+	return out
+}
+
+// execTypeSwitch: `switch x := v.(type)`. A `case nil` clause is the comparison v == nil; a clause with a type T is a comma-ok
+// assertion v.(T) (operand non-nil when it holds); in a single-type clause the bound variable is the asserted value, otherwise
+// the operand itself.
+func (e *Engine) execTypeSwitch(st *State, s *ast.TypeSwitchStmt) []*State {
+	sts := []*State{st}
+	if s.Init != nil {
+		sts = e.execStmt(st, s.Init)
+	}
+	var operand ast.Expr
+	var bind *ast.Ident
+	switch a := s.Assign.(type) {
+	case *ast.AssignStmt:
+		if len(a.Lhs) == 1 && len(a.Rhs) == 1 {
+			bind, _ = a.Lhs[0].(*ast.Ident)
+			if ta, ok := ast.Unparen(a.Rhs[0]).(*ast.TypeAssertExpr); ok {
+				operand = ta.X
+			}
+		}
+	case *ast.ExprStmt:
+		if ta, ok := ast.Unparen(a.X).(*ast.TypeAssertExpr); ok {
+			operand = ta.X
+		}
+	}
+	if operand == nil {
+		e.unsupported(st, s.Pos(), "type switch form")
+		return sts
+	}
+	var out []*State
+	for _, st0 := range sts {
+		for _, ov := range e.eval(st0, operand) {
+			src := ov.v
+			pending := []*State{ov.st}
+			var deflt *ast.CaseClause
+			bindIn := func(cc *ast.CaseClause, s *State, v *Val) {
+				if bind == nil {
+					return
+				}
+				if obj := e.Info.Implicits[cc]; obj != nil {
+					s.env[obj] = v
+				}
+			}
+			for _, cl := range s.Body.List {
+				cc := cl.(*ast.CaseClause)
+				if cc.List == nil {
+					deflt = cc
+					continue
+				}
+				var still []*State
+				for _, p := range pending {
+					rest := []*State{p}
+					for _, cx := range cc.List {
+						var nrest []*State
+						for _, r := range rest {
+							var conds []condOut
+							var asserted *Val
+							if id, ok := ast.Unparen(cx).(*ast.Ident); ok && id.Name == "nil" && e.Info.Types[cx].IsNil() {
+								for _, nv := range e.eval(r, cx) {
+									conds = append(conds, e.decideCmp(nv.st, token.EQL, src, nv.v, cx.Pos())...)
+								}
+							} else {
+								asserted = e.newVal(KAssert, e.Info.TypeOf(cx), cx.Pos())
+								asserted.Src = src
+								okv := e.newVal(KMapOk, types.Typ[types.Bool], cx.Pos())
+								okv.Src = asserted
+								conds = e.decideTruth(r, okv)
+							}
+							for _, c := range conds {
+								if c.b {
+									if asserted != nil {
+										// the assertion held: the operand is not nil, neither is the asserted value
+										c.st.nilF[src.ID] = false
+										c.st.nilF[asserted.ID] = false
+										if !e.consistent(c.st) {
+											continue
+										}
+									}
+									v := src
+									if asserted != nil && len(cc.List) == 1 {
+										v = asserted
+									}
+									bindIn(cc, c.st, v)
+									e.trace(c.st, cx.Pos(), fmt.Sprintf("case %s", exprStr(cx)))
+									out = append(out, e.finishSwitchBody(e.execList([]*State{c.st}, cc.Body))...)
+								} else {
+									nrest = append(nrest, c.st)
+								}
+							}
+						}
+						rest = nrest
+					}
+					still = append(still, rest...)
+				}
+				pending = still
+			}
+			for _, p := range pending {
+				if deflt != nil {
+					bindIn(deflt, p, src)
+					e.trace(p, deflt.Pos(), "default")
+					out = append(out, e.finishSwitchBody(e.execList([]*State{p}, deflt.Body))...)
+				} else {
+					out = append(out, p)
+				}
+			}
+		}
 	}
 	return out
 }
